@@ -32,9 +32,11 @@ RIsZero(x) == x[1] = 0
 \* division by zero is left undefined on purpose: generators never produce it
 RDiv(x, y) == Norm(x[1] * y[2], x[2] * y[1])
 
-RLt(x, y) == x[1] * y[2] < y[1] * x[2]
-RLe(x, y) == x[1] * y[2] <= y[1] * x[2]
-REq(x, y) == x[1] * y[2] = y[1] * x[2]
+\* equal denominators are compared on the numerators alone: no cross
+\* multiplication, so magnitudes up to 2^31 / denominator can be compared
+RLt(x, y) == IF x[2] = y[2] THEN x[1] < y[1] ELSE x[1] * y[2] < y[1] * x[2]
+RLe(x, y) == IF x[2] = y[2] THEN x[1] <= y[1] ELSE x[1] * y[2] <= y[1] * x[2]
+REq(x, y) == IF x[2] = y[2] THEN x[1] = y[1] ELSE x[1] * y[2] = y[1] * x[2]
 
 RBin(op, x, y) ==
   CASE op = "+" -> RAdd(x, y)
@@ -57,30 +59,59 @@ RBin(op, x, y) ==
 Limit == 16384
 TooBig(x) == x[2] = 0 \/ Abs(x[1]) > Limit \/ x[2] > Limit
 
+\* Comparisons first bring the operands to a common denominator when one
+\* denominator divides the other (values on a common grid, e.g. multiples of
+\* half a tolerance at magnitude 10^6): then no cross multiplication is needed.
+CanScale(x, k) == Abs(x[1]) <= 2000000000 \div k
+AlignL(x, y) ==   \* x rescaled to y's denominator when possible, else x
+  IF x[2] # 0 /\ y[2] # 0 /\ y[2] % x[2] = 0 /\ CanScale(x, y[2] \div x[2])
+  THEN <<x[1] * (y[2] \div x[2]), y[2]>> ELSE x
+\* a comparison is safe to compute when the (aligned) denominators are equal
+\* or both operands are inside the bound
+CmpSafe(x, y) ==
+  LET a == AlignL(x, y)  b == AlignL(y, x)
+  IN  x[2] # 0 /\ y[2] # 0 /\ (a[2] = b[2] \/ (~TooBig(x) /\ ~TooBig(y)))
+
 \* |x - y| <= eps.  The short cut for differences of one or more keeps the
 \* cross multiplication inside 32 bits (eps is far below one).
 Within(x, y, eps) ==
+  IF x[2] = y[2]
+  THEN LET k == Abs(x[1] - y[1]) IN      \* |x - y| = k / x[2]
+       IF k >= x[2] /\ eps[1] < eps[2] THEN FALSE
+       ELSE IF k > 2000000000 \div eps[2] THEN FALSE      \* k * eps[2] would exceed eps[1] * x[2]
+       ELSE k * eps[2] <= eps[1] * x[2]
+  ELSE
   LET d == RAbs(RSub(x, y))
   IN  IF d[1] >= d[2] /\ eps[1] < eps[2] THEN FALSE
       ELSE IF d[1] > 200000 THEN FALSE          \* d[1] * eps[2] would exceed any d[2]
       ELSE RLe(d, eps)
 ExactlyAt(x, y, eps) ==
+  IF x[2] = y[2]
+  THEN LET k == Abs(x[1] - y[1]) IN
+       IF k >= x[2] /\ eps[1] < eps[2] THEN FALSE
+       ELSE IF k > 2000000000 \div eps[2] THEN FALSE
+       ELSE k * eps[2] = eps[1] * x[2]
+  ELSE
   LET d == RAbs(RSub(x, y))
   IN  IF d[1] >= d[2] /\ eps[1] < eps[2] THEN FALSE
       ELSE IF d[1] > 200000 THEN FALSE
       ELSE REq(d, eps)
 
-CmpTol(op, x, y, eps) ==
+CmpTolA(op, x, y, eps) ==
   CASE op = "="  -> Within(x, y, eps)
     [] op = "<=" -> Within(x, y, eps) \/ RLt(x, y)
     [] op = ">=" -> Within(x, y, eps) \/ RLt(y, x)
     [] op = "<"  -> RLt(x, y)
     [] op = ">"  -> RLt(y, x)
 
-CmpTolSet(op, x, y, eps) ==
+CmpTol(op, x, y, eps) == CmpTolA(op, AlignL(x, y), AlignL(y, x), eps)
+
+CmpTolSetA(op, x, y, eps) ==
   IF ExactlyAt(x, y, eps) /\ op \in {"=", "<=", ">="} /\ ~RIsZero(eps)
   THEN IF op = "=" THEN BOOLEAN
        ELSE IF (op = "<=" /\ RLt(x, y)) \/ (op = ">=" /\ RLt(y, x)) THEN {TRUE}
        ELSE BOOLEAN
-  ELSE {CmpTol(op, x, y, eps)}
+  ELSE {CmpTolA(op, x, y, eps)}
+
+CmpTolSet(op, x, y, eps) == CmpTolSetA(op, AlignL(x, y), AlignL(y, x), eps)
 =============================================================================
